@@ -18,6 +18,8 @@ pub enum World {
     /// the ontology of the inner world with user-chosen category / modifier groups
     /// (categories_mut() / modifier_mut())
     Custom(Box<World>, Vec<u32>, Vec<u32>),
+    /// the ontology of the inner world after set_default_categories() and set_default_modifier()
+    Defaults(Box<World>),
 }
 
 pub struct Built {
@@ -42,6 +44,7 @@ impl World {
             ),
             World::Sub(w, root, leaves) => V::C("WSub", vec![w.to_v(), crate::v::n(*root), crate::v::ln(leaves)]),
             World::Custom(w, cats, mods) => V::C("WCustom", vec![w.to_v(), crate::v::ln(cats), crate::v::ln(mods)]),
+            World::Defaults(w) => V::C("WDefaults", vec![w.to_v()]),
             World::Jax { transitive, obo, genes, hpoa } => V::C(
                 "WJax",
                 vec![V::C(if *transitive { "true" } else { "false" }, vec![]), crate::v::bytes(obo), crate::v::bytes(genes), crate::v::bytes(hpoa)],
@@ -94,6 +97,20 @@ impl World {
                 let r = crate::catch(std::panic::AssertUnwindSafe(|| if tr { Ontology::from_standard_transitive(&d) } else { Ontology::from_standard(&d) }));
                 let _ = std::fs::remove_dir_all(&dir);
                 r.map(|result| Built { codes: vec![], result })
+            }
+            World::Defaults(w) => {
+                let src = w.build()?;
+                match src.result {
+                    Err(e) => Some(Built { codes: src.codes, result: Err(e) }),
+                    Ok(mut o) => {
+                        let codes = src.codes;
+                        crate::catch(std::panic::AssertUnwindSafe(move || match o.set_default_categories().and_then(|()| o.set_default_modifier()) {
+                            Ok(()) => Ok(o),
+                            Err(e) => Err(e),
+                        }))
+                        .map(|result| Built { codes, result })
+                    }
+                }
             }
             World::Custom(w, cats, mods) => {
                 let src = w.build()?;
@@ -234,7 +251,14 @@ pub fn gen_world_custom(rng: &mut Rng, o: Opts, tags: &mut Vec<&'static str>, on
         let cats = pickset(rng);
         let mods = pickset(rng);
         tags.push("custom_groups");
-        (World::Custom(Box::new(w), cats, mods), f)
+        let w = World::Custom(Box::new(w), cats, mods);
+        if rng.chance(1, 4) {
+            // ... and then the two public setters of the defaults: they replace whatever was set
+            tags.push("defaults_set_again");
+            (World::Defaults(Box::new(w)), f)
+        } else {
+            (w, f)
+        }
     } else {
         (w, f)
     }
